@@ -75,14 +75,39 @@ struct Outcome {
 }
 
 fn describe(seq: &[HOp]) -> Value {
-    json!({"engine":"E3","object":"harper-ls dictionaries","history": seq.iter().map(|o| format!("{o:?}")).collect::<Vec<_>>()})
+    let initial = CUR_INITIAL.with(|c| c.get());
+    json!({"engine":"E3","object":"harper-ls dictionaries","user_dictionary_file_before_start": INITIAL_FILES[initial].0, "history": seq.iter().map(|o| format!("{o:?}")).collect::<Vec<_>>()})
 }
 
+thread_local! {
+    static CUR_INITIAL: std::cell::Cell<usize> = const { std::cell::Cell::new(0) };
+}
+
+/// A user dictionary file that exists before the server starts ("a dictionary file on disk"):
+/// absent, one word, the same without a final newline, two words with CRLF line ends.
+pub const INITIAL_FILES: &[(&str, &[&str])] = &[("", &[]), ("thw\n", &["thw"]), ("thw", &["thw"]), ("thw\r\nnaïvité\r\n", &["thw", "naïvité"])];
+
 fn run_history(seq: &[HOp], crash: bool) -> Result<Outcome, String> {
+    run_history_from(seq, crash, 0)
+}
+
+fn run_history_from(seq: &[HOp], crash: bool, initial: usize) -> Result<Outcome, String> {
+    CUR_INITIAL.with(|c| c.set(initial));
     let mut sess = Session::new("c07")?;
     let mut out = Outcome { viols: vec![], steps: 0, crash_points: 0, torn: 0, applicable: true };
     let scratch = sess.world.root.join("recovered.txt");
     let mut asis_user: BTreeSet<String> = BTreeSet::new();
+    if initial > 0 {
+        let (bytes, words) = INITIAL_FILES[initial];
+        if let Some(dir) = sess.world.user_dict.parent() {
+            std::fs::create_dir_all(dir).map_err(|e| e.to_string())?;
+        }
+        std::fs::write(&sess.world.user_dict, bytes).map_err(|e| e.to_string())?;
+        for w in words {
+            sess.client.user_words.insert(w.to_string());
+            asis_user.insert(w.to_string());
+        }
+    }
     let mut asis_file: Vec<BTreeSet<String>> = vec![BTreeSet::new(), BTreeSet::new()];
     // (dictionary path, directory images at the crash points, words that must survive, word in flight)
     let mut continuation: Option<(PathBuf, Vec<DirImage>, BTreeSet<String>, String, Op)> = None;
@@ -343,7 +368,8 @@ pub fn replay(case: &Value) -> Vec<(String, Value)> {
     let seq: Option<Vec<HOp>> = hist.iter().map(|h| h.as_str().and_then(parse_hop)).collect();
     let Some(seq) = seq else { return vec![("bad-replay-file: unknown operation".into(), json!({}))] };
     let ends_in_add = matches!(seq.last(), Some(HOp::AddUser(..)) | Some(HOp::AddFile(..)));
-    match catch(|| run_history(&seq, ends_in_add)) {
+    let initial = case["user_dictionary_file_before_start"].as_str().and_then(|b| INITIAL_FILES.iter().position(|(x, _)| *x == b)).unwrap_or(0);
+    match catch(|| run_history_from(&seq, ends_in_add, initial)) {
         Ok(Ok(o)) if !o.applicable => vec![("history-not-applicable".into(), json!({}))],
         Ok(Ok(o)) => o.viols.into_iter().map(|v| (v.sig, v.detail)).collect(),
         Ok(Err(e)) => vec![(format!("machinery: {e}"), json!({}))],
@@ -442,7 +468,10 @@ pub fn run(tier: Tier) -> i32 {
         for i in s..e {
             let seq: Vec<HOp> = seqs[i as usize].iter().map(|k| ops[*k].clone()).collect();
             let ends_in_add = matches!(seq.last(), Some(HOp::AddUser(..)) | Some(HOp::AddFile(..)));
-            match catch(|| run_history(&seq, ends_in_add)) {
+            // a pre-existing dictionary file: every variant for the shorter histories
+            let initials: Vec<usize> = if seq.len() < depth { (0..INITIAL_FILES.len()).collect() } else { vec![0] };
+            for initial in initials {
+            match catch(|| run_history_from(&seq, ends_in_add, initial)) {
                 Ok(Ok(o)) => {
                     if o.applicable {
                         ran += 1;
@@ -460,6 +489,7 @@ pub fn run(tier: Tier) -> i32 {
                 }
                 Ok(Err(e)) => errs.push(format!("{seq:?}: {e}")),
                 Err(p) => viols.push(Violation { sig: format!("server-panic:{}", msg_class(&p.msg)), case: describe(&seq), detail: json!({"at": format!("{}:{}", short_file(&p.file), p.line), "msg": p.msg}) }),
+            }
             }
         }
         (ran, steps, crash_points, torn, viols, errs)
